@@ -247,6 +247,12 @@ func norm(n Node, inPath bool) Node {
 			min := 100
 			if i == 0 {
 				min = 90
+				if _, isSort := s.(*Sort); isSort {
+					// an order-by ends with its closing parenthesis: the
+					// next '.' continues the path without parentheses
+					steps = append(steps, s)
+					continue
+				}
 			}
 			switch s.(type) {
 			case *Str, *Num, *Bool, *Null:
